@@ -294,6 +294,9 @@ func (s *Solver) Check() Result {
 		s.Stats.Errors++
 	}
 	d := time.Since(t0)
+	if s.Log != nil {
+		fmt.Fprintf(s.Log, "; -> %v in %v\n", res, d)
+	}
 	s.Stats.Queries++
 	s.Stats.Time += d
 	if d > s.Stats.MaxQuery {
